@@ -1,7 +1,25 @@
 (* run_C04.ml — resolve <entries>   entries: f (full) or d<base> comma separated  -> ok:<n resolved> | unresolved | fuel ;  read <entries> <i> -> ok | error | fuel *)
 let rec nat_of_int n = if n = 0 then O else S (nat_of_int (n - 1))
 let entries es = List.map (fun x -> if x = "f" then EFull else EDelta (nat_of_int (int_of_string (String.sub x 1 (String.length x - 1))))) (String.split_on_char ',' es)
+(* thin <entries name:f | name:dBASE, joined by ','> <names the store has, '.'-joined>
+   -> resolved|unresolved <names of the completed pack: the entries, then what is appended> *)
+let rec int_of_nat = function O -> 0 | S k -> 1 + int_of_nat k
+let thin es store =
+  let ents = List.map (fun it -> match String.split_on_char ':' it with
+    | [n; "f"] -> (nat_of_int (int_of_string n), KFull)
+    | [n; k] -> (nat_of_int (int_of_string n), KDelta (nat_of_int (int_of_string (String.sub k 1 (String.length k - 1)))))
+    | _ -> failwith "entry") (String.split_on_char ',' es) in
+  let have = if store = "_" then [] else List.map int_of_string (String.split_on_char '.' store) in
+  let st = fun n -> List.mem (int_of_nat n) have in
+  (* the pending bases, in the order of their ids *)
+  let bases = List.sort_uniq compare (List.concat_map (fun (_, k) -> match k with KDelta b -> [int_of_nat b] | KFull -> []) ents) in
+  let s = complete true st (List.map nat_of_int bases) ents in
+  let all_done = List.for_all (fun (n, _) -> List.mem (int_of_nat n) (List.map int_of_nat s.prod0)) ents in
+  (if all_done then "resolved " else "unresolved ") ^
+  String.concat "." (List.map (fun n -> string_of_int (int_of_nat n)) (completed_names ents s))
+
 let handle = function
+  | ["thin"; es; store] -> thin es store
   | ["resolve"; es] ->
       (match resolve (entries es) with
        | None -> "fuel"
